@@ -69,6 +69,12 @@ func ruleFilterNames(c *eng.Ctx) {
 		return
 	}
 	labels, clauses := caseTable(fd)
+	if len(labels) == 0 {
+		if ruleFilterNamesTable(c, R, fd) {
+			ruleParamsObjToDict(c, R)
+			return
+		}
+	}
 	for _, pair := range isoFilters {
 		long, short := pair[0], pair[1]
 		li, okL := labels[long]
@@ -131,6 +137,10 @@ func ruleFilterNames(c *eng.Ctx) {
 		}
 	}
 	c.Check(okDef, R, "core.decodeWithFilter#default", fd.Decl.Pos(), "unknown filter names are an error", "unknown filter names no longer produce an error (data would pass through undecoded)")
+	ruleParamsObjToDict(c, R)
+}
+
+func ruleParamsObjToDict(c *eng.Ctx, R string) {
 	// paramsObjToDict: Dict -> itself, anything else -> nil
 	if fn := c.P.Func("core.paramsObjToDict"); fn == nil {
 		c.Undec(R, "core.paramsObjToDict", token.NoPos, "anchor not found")
@@ -842,11 +852,9 @@ func ruleRowGeometry(c *eng.Ctx, R string) {
 	rl, ok := eng.IntPoly(args[5], leaf)
 	check("rowLength", rl, ok, rowLen, "decoded row length = Columns*Colors")
 	// row data slice
-	if sl, isSl := args[0].(*ssa.Slice); isSl && sl.Low != nil && sl.High != nil {
-		lo, ok1 := eng.IntPoly(sl.Low, leaf)
-		hi, ok2 := eng.IntPoly(sl.High, leaf)
-		check("rowData.low", lo, ok1, rowSym.Mul(stride).Add(eng.PConst(1)), "row bytes start after the tag byte at row*(Columns*Colors+1)+1")
-		check("rowData.high", hi, ok2, rowSym.Mul(stride).Add(stride), "row bytes end at (row+1)*(Columns*Colors+1)")
+	if _, lo, hi, okS := absSlice(args[0], leaf); okS && hi != nil {
+		check("rowData.low", lo, true, rowSym.Mul(stride).Add(eng.PConst(1)), "row bytes start after the tag byte at row*(Columns*Colors+1)+1")
+		check("rowData.high", hi, true, rowSym.Mul(stride).Add(stride), "row bytes end at (row+1)*(Columns*Colors+1)")
 	} else {
 		c.Viol(R, "filters.applyPNGPredictor#rowData", call.Pos(), "row bytes are not a sub-slice data[lo:hi]")
 	}
@@ -854,6 +862,9 @@ func ruleRowGeometry(c *eng.Ctx, R string) {
 	if ld, isLd := args[1].(*ssa.UnOp); isLd && ld.Op == token.MUL {
 		if ia, ok := ld.X.(*ssa.IndexAddr); ok {
 			idx, okp := eng.IntPoly(ia.Index, leaf)
+			if _, off, _, okB := absSlice(ia.X, leaf); okB && okp {
+				idx = idx.Add(off) // the tag read through a window of the buffer: position in the buffer
+			}
 			check("tag", idx, okp, rowSym.Mul(stride), "row tag byte is data[row*(Columns*Colors+1)]")
 		}
 	} else {
@@ -903,7 +914,11 @@ func ruleTIFF(c *eng.Ctx, R string) {
 			return
 		}
 		ia, ok := st.Addr.(*ssa.IndexAddr)
-		if !ok || ia.X != outBuf {
+		if !ok {
+			return
+		}
+		sBase, sOff, _, okB := absSlice(ia.X, leaf)
+		if !okB || sBase != outBuf {
 			return
 		}
 		sIdx, ok := eng.IntPoly(ia.Index, leaf)
@@ -911,6 +926,7 @@ func ruleTIFF(c *eng.Ctx, R string) {
 			bad = append(bad, "store index not affine")
 			return
 		}
+		sIdx = sIdx.Add(sOff)
 		add, isAdd := st.Val.(*ssa.BinOp)
 		if !isAdd || add.Op != token.ADD {
 			return // the first-pixel copy
@@ -929,7 +945,13 @@ func ruleTIFF(c *eng.Ctx, R string) {
 				bad = append(bad, "load index not affine")
 				continue
 			}
-			if la.X == outBuf {
+			lBase, lOff, _, okL := absSlice(la.X, leaf)
+			if !okL {
+				bad = append(bad, "load window not affine")
+				continue
+			}
+			lIdx = lIdx.Add(lOff)
+			if lBase == outBuf {
 				d := lIdx.Sub(sIdx)
 				if !d.Equal(colors.Neg()) {
 					bad = append(bad, "left neighbour offset is "+d.String()+", specified -Colors")
@@ -966,7 +988,7 @@ func ruleTIFF(c *eng.Ctx, R string) {
 				if !g {
 					bad = append(bad, "left neighbour access not guarded by col >= Colors")
 				}
-			} else if la.X == ssa.Value(fn.Params[0]) {
+			} else if lBase == ssa.Value(fn.Params[0]) {
 				if !lIdx.Equal(sIdx) {
 					bad = append(bad, "input byte index differs from output index")
 				}
@@ -1448,6 +1470,12 @@ func decoderReached(p *eng.Prog, name, want string) bool {
 			return false
 		}
 		g := eng.StaticCallee(ci)
+		if g == nil && !ci.Common().IsInvoke() {
+			// the handler looked up in a read-only table keyed by the filter name
+			if tbl, lk := filterLookupTable(fn, nameP); tbl != nil && valueFromLookup(ci.Common().Value, lk) {
+				g = tableHandler(tbl[name])
+			}
+		}
 		if g == nil {
 			return false
 		}
@@ -1468,4 +1496,145 @@ func decoderReached(p *eng.Prog, name, want string) bool {
 		return k >= 0 && k < len(args) && args[k] == dataP
 	}
 	return eng.StrReach(fn, []string{name}, func(v ssa.Value) bool { return v == nameP }, nil, target)[name]
+}
+
+// filterLookupTable: the dispatcher reads a package-level table (a map literal nothing else writes) with the filter
+// name as the key; returns the table's entries and the lookup.
+func filterLookupTable(fn *ssa.Function, nameP ssa.Value) (map[string]ssa.Value, *ssa.Lookup) {
+	var tbl map[string]ssa.Value
+	var at *ssa.Lookup
+	eng.Instrs(fn, false, func(in ssa.Instruction) {
+		lk, ok := in.(*ssa.Lookup)
+		if !ok || lk.Index != nameP || at != nil {
+			return
+		}
+		ld, ok := lk.X.(*ssa.UnOp)
+		if !ok {
+			return
+		}
+		g, ok := ld.X.(*ssa.Global)
+		if !ok {
+			return
+		}
+		if strs, _, ok := eng.GlobalMapEntries(g); ok && len(strs) > 0 {
+			tbl, at = strs, lk
+		}
+	})
+	return tbl, at
+}
+
+func valueFromLookup(v ssa.Value, lk *ssa.Lookup) bool {
+	if v == ssa.Value(lk) {
+		return true
+	}
+	ex, ok := v.(*ssa.Extract)
+	return ok && ex.Tuple == ssa.Value(lk) && ex.Index == 0
+}
+
+// tableHandler: the function a table entry stands for (conversions to a named function type are transparent).
+func tableHandler(v ssa.Value) *ssa.Function {
+	for v != nil {
+		switch x := v.(type) {
+		case *ssa.Function:
+			return x
+		case *ssa.ChangeType:
+			v = x.X
+		case *ssa.MakeClosure:
+			if len(x.Bindings) == 0 {
+				f, _ := x.Fn.(*ssa.Function)
+				return f
+			}
+			return nil
+		default:
+			return nil
+		}
+	}
+	return nil
+}
+
+// ruleFilterNamesTable decides R5.1 for a dispatcher written as a lookup in a table of handler functions. It reports
+// false when the dispatcher does not have that form.
+func ruleFilterNamesTable(c *eng.Ctx, R string, fd *eng.FuncDecl) bool {
+	fn := c.P.Func("core.decodeWithFilter")
+	if fn == nil {
+		return false
+	}
+	var nameP ssa.Value
+	for _, prm := range fn.Params {
+		if b, ok := prm.Type().Underlying().(*types.Basic); ok && b.Kind() == types.String && nameP == nil {
+			nameP = prm
+		}
+	}
+	if nameP == nil {
+		return false
+	}
+	tbl, lk := filterLookupTable(fn, nameP)
+	if tbl == nil {
+		return false
+	}
+	for _, pair := range isoFilters {
+		long, short := pair[0], pair[1]
+		hl, hs := tableHandler(tbl[long]), tableHandler(tbl[short])
+		key := "core.decodeWithFilter#case " + long + "/" + short
+		switch {
+		case tbl[long] == nil || tbl[short] == nil:
+			c.Viol(R, key, lk.Pos(), fmt.Sprintf("filter name %q or its abbreviation %q has no entry: streams using it fall into the unknown-filter error", long, short))
+		case hl == nil || hl != hs:
+			c.Viol(R, key, lk.Pos(), fmt.Sprintf("%q and its abbreviation %q are handled by different functions", long, short))
+		default:
+			c.Ok(R, key, lk.Pos(), "long and abbreviated name share a handler")
+		}
+		if want, ok := implementedFilters[long]; ok && tbl[long] != nil {
+			found := decoderReached(c.P, long, want) && decoderReached(c.P, short, want)
+			c.Check(found, R, "core.decodeWithFilter#"+long+"->decoder", lk.Pos(), "dispatches to "+want+"(data, …)", "entry for "+long+" does not call "+want+" on the incoming data")
+		}
+	}
+	// a name outside the table ends in an error
+	const none = "\x00no-such-filter"
+	errRet, okRet := false, false
+	eng.StrReach(fn, []string{none}, func(v ssa.Value) bool { return v == nameP }, nil, func(in ssa.Instruction) bool {
+		r, ok := in.(*ssa.Return)
+		if !ok || len(r.Results) == 0 {
+			return false
+		}
+		if eng.IsNilConst(r.Results[len(r.Results)-1]) {
+			okRet = true
+		} else {
+			errRet = true
+		}
+		return false
+	})
+	c.Check(errRet && !okRet, R, "core.decodeWithFilter#default", fd.Decl.Pos(), "unknown filter names are an error", "unknown filter names no longer produce an error (data would pass through undecoded)")
+	return true
+}
+
+// absSlice resolves a slice value that is a window of a window … of a buffer: the buffer, and the window's bounds as
+// positions in the buffer (hi is nil when the window runs to the end of the buffer). A value that is not a slice
+// expression is its own buffer with offset 0.
+func absSlice(v ssa.Value, leaf func(ssa.Value) (*eng.Poly, bool)) (base ssa.Value, lo, hi *eng.Poly, ok bool) {
+	sl, isSl := v.(*ssa.Slice)
+	if !isSl {
+		return v, eng.PConst(0), nil, true
+	}
+	b, blo, bhi, ok := absSlice(sl.X, leaf)
+	if !ok {
+		return nil, nil, nil, false
+	}
+	lo = blo
+	if sl.Low != nil {
+		p, ok := eng.IntPoly(sl.Low, leaf)
+		if !ok {
+			return nil, nil, nil, false
+		}
+		lo = blo.Add(p)
+	}
+	hi = bhi
+	if sl.High != nil {
+		p, ok := eng.IntPoly(sl.High, leaf)
+		if !ok {
+			return nil, nil, nil, false
+		}
+		hi = blo.Add(p)
+	}
+	return b, lo, hi, true
 }
